@@ -223,7 +223,7 @@ def check_distribution(ctx, c):
                 return
             # scalar input
             sv = float(np.asarray(model.spectral_rad_pdf(float(ks[4]))))
-            if not abs(sv - pdf[4]) <= (1e-12 if analytic else 1e-8) * abs(pdf[4]) + 1e-300:
+            if not abs(sv - pdf[4]) <= (1e-12 * abs(pdf[4]) if analytic else 1e-6 * float(np.max(np.abs(pdf)))) + 1e-300:
                 ctx.fail(dict(mech, what="rad_pdf(scalar)"), f"{sv} vs {pdf[4]}")
                 return
             # normalisation
